@@ -173,78 +173,159 @@ def histories(ctx, exe):
     ctx.add("distinct_nontrivial", st["n"])
 
 
-def gen_long(rnd, n):
-    """long random texts: (delims, text)"""
+SWEEP = (8, 16, 32, 64, 128, 256, 512, 1024, 2048, 4096)
+WORDS_MAX, JOIN_MAX = 600, 1100        # the word / join operators of the spec are recursive: TLC evaluates them up to these sizes
+
+
+def rnd_text(rnd, ln, pop, few_quotes=False):
+    s = [rnd.choice(pop) for _ in range(ln)]
+    if few_quotes:
+        s = [97 if c in (SQ, DQ) and rnd.random() < 0.8 else c for c in s]
+    return s
+
+
+def gen_long(rnd, tier):
+    """(family, delims, text): the families a small exhaustive universe cannot reach"""
     weights = [(97, 14), (98, 12), (99, 10), (100, 8), (101, 8), (32, 15), (9, 2), (10, 1), (58, 7), (SQ, 6), (DQ, 6), (BS, 9), (45, 2)]
     pop = [c for c, w in weights for _ in range(w)]
-    out = []
     dsets = [[], [58], [58, 32]]
-    for k in range(n):
-        ln = rnd.choice([50, 64, 127, 128, 129, 255, 256, 1000, 4095, 4096, 4097, 5000, rnd.randint(50, 5000), rnd.randint(50, 5000)])
-        mode = k % 4
-        if mode == 3:      # few quotes: many tokens
-            s = [rnd.choice(pop) if rnd.random() < 0.9 else 97 for _ in range(ln)]
-            s = [97 if c in (SQ, DQ) and rnd.random() < 0.8 else c for c in s]
-        else:
-            s = [rnd.choice(pop) for _ in range(ln)]
+    out = []
+    # (1) size sweep of the input: n-1, n, n+1 around the powers of two (+ the 127/128-byte and 4096-byte constants of the library)
+    sizes = sorted({m for n in SWEEP for m in (n - 1, n, n + 1)} | {126, 5000})
+    for k, ln in enumerate(sizes):
+        s = rnd_text(rnd, ln, pop, few_quotes=(k % 4 == 3))
         if k % 5 == 0:
             s[-1] = BS
         if k % 7 == 0:
             s[-1] = rnd.choice([SQ, DQ])
-        out.append((dsets[k % 3], s))
+        out.append(("size-sweep", dsets[k % 3], s))
+    # (2) seeded random lengths
+    for k in range(6 if tier == "quick" else 48):
+        out.append(("random", dsets[k % 3], rnd_text(rnd, rnd.randint(50, 5000), pop, few_quotes=(k % 4 == 3))))
+    # (3) size sweep of the DELIMITER SET: 7..257 delimiter characters (distinct while the pool lasts), inputs that use delimiters
+    #     from every part of the set together with quotes and backslash escapes
+    dpool = [c for c in range(33, 127) if c not in (SQ, DQ, BS) and not (97 <= c <= 101)] + list(range(128, 256))
+    for dl in sorted({m for n in (8, 16, 32, 64, 128, 256) for m in (n - 1, n, n + 1)} | set(range(27, 34))):
+        d = [dpool[i % len(dpool)] for i in range(dl)]
+        s = []
+        while len(s) < 140:
+            r = rnd.random()
+            if r < 0.45:
+                s.append(rnd.choice([97, 98, 99, 100, 101]))
+            elif r < 0.65:
+                s.append(d[rnd.choice([0, dl - 1, dl // 2, rnd.randrange(dl)])])
+            elif r < 0.78:
+                s += [BS, rnd.choice([d[-1], d[0], d[rnd.randrange(dl)], SQ, DQ, 97])]
+            elif r < 0.90:
+                q = rnd.choice([SQ, DQ])
+                s += [q, 97, d[rnd.randrange(dl)], BS, q, 98, q]
+            else:
+                s.append(32)
+        out.append(("delimiter-size-sweep", d, s))
+    # (4) every byte value 1..255: plain, escaped, quoted, after a blank, first and last
+    for lo in range(1, 256, 51):
+        s = []
+        for b in range(lo, min(lo + 51, 256)):
+            s += [b, 32, BS, b, 32, DQ, b, DQ, 32, 97, b, 32]
+        for d in dsets:
+            out.append(("byte-values", d, s))
+        out.append(("byte-values", [58], [min(lo + 50, 255)] + s[:-1]))
     return out
 
 
 def long_inputs(ctx, exe):
     rnd = random.Random(ctx.seed)
-    n = 24 if ctx.tier == "quick" else 72
-    inputs = gen_long(rnd, n)
+    inputs = gen_long(rnd, ctx.tier)
     cases = []
-    for k, (d, s) in enumerate(inputs):
+    for k, (fam, d, s) in enumerate(inputs):
         dt = tok(d) if d else "-"
-        cases.append(x_c12.Case(k + 1, [("split", [dt, tok(s)], "?", None), ("tok", [dt, tok(s)], "?", None)], {"d": d, "s": s}))
+        steps = [("split", [dt, tok(s)], "?", None), ("tok", [dt, tok(s)], "?", None)]
+        if not d and len(s) <= WORDS_MAX:
+            steps.append(("words", [tok(s)], "?", None))
+        cases.append(x_c12.Case(k + 1, steps, {"d": d, "s": s, "family": fam}))
     got = {}
 
     def recorder(c, at, ret):
         got[(c.sid, at)] = untok(ret)
-    x_c12.run_cases(ctx, exe, [], cases, lambda c, at, f: "long-input " + keyfn(c, at, f), "long_inputs", recorder=recorder)
+    lkey = lambda c, at, f: "long-input[%s] %s" % (c.meta["family"], keyfn(c, at, f))
+    x_c12.run_cases(ctx, exe, [], cases, lkey, "long_inputs", recorder=recorder)
+    # join on the token lists that split returned (second pass: the tokens are only known now)
+    jcases = []
+    for c in cases:
+        ts = got.get((c.sid, 0))
+        if ts and len(c.meta["s"]) <= JOIN_MAX and all(isinstance(x, list) for x in ts):
+            jcases.append(x_c12.Case(c.sid, [("join", [tok(ts)], "?", None)], dict(c.meta, toks=ts)))
+    jgot = {}
+    x_c12.run_cases(ctx, exe, [], jcases, lkey, "long_inputs_join", recorder=lambda c, at, ret: jgot.__setitem__(c.sid, untok(ret)))
     events, index = [], []
     blank = lambda t: isinstance(t, list) and len(t) > 0 and all(ch in (32, 9, 10, 11, 12, 13) for ch in t)
     for c in cases:
-        for at, op in ((0, "split"), (1, "tok")):
-            if (c.sid, at) in got:
-                ret = got[(c.sid, at)]
-                if op == "tok" and any(blank(t) for t in ret):
-                    # A trimmed token is empty or starts and ends with a non-blank (law TokAgreesWithSplitModuloTrim of the
-                    # reference), so an all-blank token is a violation by itself.  It is reported under its own key and the
-                    # token is normalised so that TLC still validates everything else in this event.
-                    ctx.report("long-input tok d=%s ret/blank-token-not-trimmed" % dclass(c.meta["d"]),
-                               "tok on a %d-character input returned an all-blank token (a trimmed token is empty or has non-blank ends)" % len(c.meta["s"]),
-                               {"harness_args": [], "script_text": x_c12.Case(1, [("tok", c.steps[at][1], tok([[] if blank(t) else t for t in ret]), None)]).text(),
-                                "note": "expected value = recorded value with the all-blank tokens emptied"})
-                    ret = [[] if blank(t) else t for t in ret]
-                events.append({"op": op, "d": c.meta["d"], "s": c.meta["s"], "ret": ret})
-                index.append((c, at))
+        fam = c.meta["family"]
+        for at, (op, args, _, _) in enumerate(c.steps):
+            if (c.sid, at) not in got:
+                continue
+            ret = got[(c.sid, at)]
+            if op == "tok" and any(blank(t) for t in ret):
+                # A trimmed token is empty or starts and ends with a non-blank (law TokAgreesWithSplitModuloTrim of the
+                # reference), so an all-blank token is a violation by itself.  It is reported under its own key and the
+                # token is normalised so that TLC still validates everything else in this event.
+                ctx.report("long-input tok d=%s ret/blank-token-not-trimmed" % dclass(c.meta["d"]),
+                           "tok on a %d-character input returned an all-blank token (a trimmed token is empty or has non-blank ends)" % len(c.meta["s"]),
+                           {"harness_args": [], "script_text": x_c12.Case(1, [("tok", args, tok([[] if blank(t) else t for t in ret]), None)]).text(),
+                            "note": "expected value = recorded value with the all-blank tokens emptied"})
+                ret = [[] if blank(t) else t for t in ret]
+            if op == "words":
+                if not isinstance(ret, dict) or any(w is None for w in ret.get("w", [None])):
+                    ctx.report("long-input[%s] words ret/null-word" % fam, "get_word(i) returned NULL for an i <= num_words on a %d-character input" % len(c.meta["s"]),
+                               {"harness_args": [], "script_text": x_c12.Case(1, [c.steps[at]]).text(), "recorded": ret})
+                    continue
+            events.append({"op": op, "d": c.meta["d"], "s": c.meta["s"], "ret": ret})
+            index.append((c, at, fam))
+    for c in jcases:
+        if c.sid in jgot and all(isinstance(x, list) for x in jgot[c.sid]):
+            events.append({"op": "join", "d": [], "s": [], "toks": c.meta["toks"], "ret": jgot[c.sid]})
+            index.append((c, 0, c.meta["family"]))
     if not events:
         raise Broken("no long input could be recorded")
-    ok, pos, path, res = x_c12.validate_trace(ctx, "QuoteTrace.tla", "QuoteTrace.cfg", events, tag="long")
-    ctx.add("trace_events_validated", pos)
-    ctx.add("trace_scanner_steps", res.distinct)
-    ctx.cov["long_inputs"] = {"strings": n, "events_recorded": len(events), "events_accepted": pos,
-                              "min_len": min(len(s) for _, s in inputs), "max_len": max(len(s) for _, s in inputs),
-                              "tlc_states": res.distinct, "tlc_wall_s": round(res.wall, 1)}
-    if not ok:
-        c, at = index[pos]
+    byfam = {}
+    for _, _, fam in index:
+        byfam[fam] = byfam.get(fam, 0) + 1
+    # validation; a rejected event is reported and taken out so that the events behind it are still validated
+    accepted = 0
+    states = 0
+    wall = 0.0
+    first_ok = None
+    for attempt in range(8):
+        ok, pos, path, res = x_c12.validate_trace(ctx, "QuoteTrace.tla", "QuoteTrace.cfg", events, tag="long%d" % attempt)
+        states += res.distinct
+        wall += res.wall
+        if ok:
+            accepted += len(events)
+            first_ok = events[0]
+            break
+        accepted += pos
+        c, at, fam = index[pos]
         e = events[pos]
-        ctx.report("long-input trace-rejected %s d=%s" % (e["op"], dclass(e["d"])),
-                   "TLC rejects the recorded result of %s on a %d-character input (event %d): the scanner of Quote.tla yields a different token list"
-                   % (e["op"], len(e["s"]), pos),
-                   {"harness_args": [], "script_text": x_c12.Case(1, [c.steps[at]]).text(), "event_index": pos, "event": e})
+        ctx.report("long-input[%s] trace-rejected %s d=%s" % (fam, e["op"], dclass(e["d"]) if e["op"] != "join" else "-"),
+                   "TLC rejects the recorded result of %s on a %d-character input with %d delimiter characters: the reference of Quote.tla yields a different result"
+                   % (e["op"], len(e["s"]), len(e["d"])),
+                   {"harness_args": [], "script_text": x_c12.Case(1, [(c.steps[at][0], c.steps[at][1], "?", None)]).text(), "event": e})
+        events = events[pos + 1:]
+        index = index[pos + 1:]
+        if not events:
+            break
     else:
-        e = events[0]
+        ctx.notes.append("trace validation stopped after 8 rejected events; %d events not validated" % len(events))
+    ctx.add("trace_events_validated", accepted)
+    ctx.add("trace_scanner_steps", states)
+    ctx.cov["long_inputs"] = {"strings": len(inputs), "events_recorded": sum(byfam.values()), "events_accepted": accepted, "events_by_family": byfam,
+                              "min_len": min(len(s) for _, _, s in inputs), "max_len": max(len(s) for _, _, s in inputs),
+                              "max_delimiter_set": max(len(d) for _, d, _ in inputs), "tlc_states": states, "tlc_wall_s": round(wall, 1)}
+    if first_ok is not None:
+        e = first_ok
         ctx.sample({"long_input_len": len(e["s"]), "op": e["op"], "delims": txt(e["d"]), "first_60_chars": txt(e["s"][:60]),
                     "tokens": len(e["ret"]), "first_tokens": [txt(t) for t in e["ret"][:3]]})
-        negative_control(ctx, events)
+        negative_control(ctx, [e for e in events if e["op"] in ("split", "tok")])
     return events
 
 
